@@ -24,6 +24,12 @@ CLAIMS["C05"] = dict(
 CLAIMS["C06"] = dict(
     text="Same exploration as C05 plus envelopes with symbolic interiors followed by a valid message; an independent framer of the outer TLV headers runs on the same symbolic bytes and the obligation 'messages returned == complete units delivered' is discharged by z3 on every error-free path.",
     ref="DESIGN.md 3/C06", technique="symbolic execution of the real receive path (SX) + independent TLV framer as oracle, z3 validity queries")
+CLAIMS["C01"] = dict(
+    text="Bounded symbolic execution of pack() and unpack_ldap_message(): message skeletons (kind x optionals x list lengths x filter trees x control forms) are enumerated, every int/bool/text/octet content is a solver variable; per path z3 proves decoded == original field by field, exact consumption against a symbolic sentinel, and byte-equal re-encoding.",
+    ref="DESIGN.md 3/C01", technique="symbolic execution of the real encoder+decoder (SX) + z3 validity queries")
+CLAIMS["C03"] = dict(
+    text="The symbolic bytes produced by the real pack() are decoded by an independent strict RFC 4511/X.690 decoder (oracles/ref_ber.py) running on the same solver variables; every well-formedness condition and the equality of the recovered abstract message with the message's fields is a z3 validity query. Symmetric encoder/decoder mistakes are therefore visible.",
+    ref="DESIGN.md 3/C03", technique="symbolic execution of the real encoder (SX) + independent reference decoder as oracle, z3 validity queries")
 PENDING = {}
 
 def main():
